@@ -595,6 +595,52 @@ fn extra_scenarios(base: &Path, case_no: &mut usize) {
         report(&format!("register-while-events-flow-{}", mode), r);
     }
 
+    // (4c) `watch_path` from SEVERAL THREADS at once, none of them the creator (paths registered from outside:
+    //      persistent_watch, or fast reload so that no reload drops the watcher): the first registrations race
+    //      for creating the watcher; whoever wins, EVERY registered path must be watched afterwards (model:
+    //      MJ.WatcherReg, concurrent_watch_paths_share_one_watcher).  Several rounds, each on a fresh reloader.
+    for (mode, fast, persistent) in [("persistent", false, true), ("fast", true, false)] {
+        begin(&format!("concurrent-registrations-{}", mode));
+        let mut r: Result<(), String> = Ok(());
+        for round in 0..4 {
+            *case_no += 1;
+            let c = make_case(base, *case_no, move |n, _, _| {
+                n.set_fast_reload(fast);
+                n.persistent_watch(persistent);
+            });
+            r = (|| {
+                if c.env() != c.disk() {
+                    return Err("first acquire does not reflect the disk".to_string());
+                }
+                let barrier = Arc::new(std::sync::Barrier::new(4));
+                let other = c.root.join("other");
+                fs::create_dir_all(&other).unwrap();
+                let regs: Vec<(PathBuf, bool)> = vec![(c.w.clone(), false), (c.w.join("sub"), false), (c.inc.clone(), true), (other, true)];
+                let hs: Vec<_> = regs
+                    .into_iter()
+                    .map(|(path, rec)| {
+                        let (b, n) = (barrier.clone(), c.reloader.notifier());
+                        std::thread::spawn(move || {
+                            b.wait();
+                            n.watch_path(&path, rec);
+                        })
+                    })
+                    .collect();
+                for h in hs {
+                    h.join().map_err(|_| "a registering thread panicked".to_string())?;
+                }
+                c.change_must_be_served(&format!("round {}: change under the path registered by thread 0", round), || fs::write(c.w.join("a.txt"), "a2").unwrap())?;
+                c.change_must_be_served(&format!("round {}: change under the path registered by thread 1", round), || fs::write(c.w.join("sub/c.txt"), "c2").unwrap())?;
+                c.change_must_be_served(&format!("round {}: change under the path registered by thread 2", round), || fs::write(c.inc.join("x.txt"), "x2").unwrap())?;
+                c.change_must_be_served(&format!("round {}: second change under thread 0's path", round), || fs::write(c.w.join("b.txt"), "b2").unwrap())
+            })();
+            if r.is_err() {
+                break;
+            }
+        }
+        report(&format!("concurrent-registrations-{}", mode), r);
+    }
+
     // (5) contention on the notifier mutex: the freshness callback (user code, "usually stats files") runs
     //     UNDER it.  A file change that is reported meanwhile has to wait for the mutex; it must not be
     //     dropped.  (the sleep only gives the watcher thread time to get there; every wait that decides
